@@ -225,7 +225,7 @@ REGISTRY = {
         'not_decided': ['which byte strings the grammar functions reject (bounded, C13)', 'syntactic validity of the error response (C15 framing)'],
     },
     'C13': {
-        'modules': ['contracts.http_parser', 'contracts.http_server'], 'level': 'proof',
+        'modules': ['contracts.http_parser', 'contracts.http_server', 'contracts.http_client'], 'level': 'proof',
         'level_text': 'Stash discipline of HttpParser per phase, for every stash and every new data: the first line and the header block '
                       'are searched in stash + data, an incomplete unit is kept whole without error, a complete one is consumed from the '
                       'front; identity bodies by an additive arithmetic contract; chunked bodies consume a chunk only when size line, '
